@@ -28,6 +28,19 @@ for lg in logs:
         else:
             results[base] = r
 props = {json.loads(l)["id"]: json.loads(l) for l in open(os.path.join(ROOT, "properties.jsonl"))}
+# changes the target check missed on its first pass, and what was added to the machinery (the re-run is recorded above)
+STRENGTHENED = {
+    "C02_m1": "first missed by C02 (argument snapshots used jax-array states only): added eager steps on writable NumPy copies of the state",
+    "C02_m2": "first missed by C02: added the clause 'a result handed out earlier is not touched by a later eager call' + eager history independence",
+    "C14_m2": "first missed by C14 (render clause ran only on the rollout configurations): added a render/slice shard on configurations with unit-length axes (1 agent, 1 city, 1 block)",
+    "C15_m1": "first missed by C15 (re-seeding was only tried with non-zero seeds): added reset(seed=0) on a used adapter",
+    "C05_m2": "first missed by C05 quick (caught by C09): probe density of C05 doubled so that the nearly-full-row state is enumerated",
+    "C07_m1": "first missed by C07 quick (caught by C09): LBF 'collide' policy now also plays chain collisions (a third agent stepping into the cell a contender fails to leave)",
+    "C09_m2": "first missed by C09/C07 quick (fruit lands under the head in ~0.5% of fruit events on 12x12): added the 3x4 Snake configuration with many fruit events",
+    "C10_m2": "first missed by C10 (all shipped Sudoku databases are int8): added user databases in uint8 / int64",
+    "C11_m1": "first missed by C11 quick (no non-square Cleaner/Maze configuration with the default time limit on the quick tier): added r4c7 / r7c4 configurations",
+    "C19_m2": "caught by the symmetric-comparison clause; the variant 'other dtype and a value the cast would destroy' was added to make the hit direct",
+}
 rows = []
 for name, r in sorted(results.items()):
     src = os.path.join(ROOT, ".work", "mut", name)
@@ -55,6 +68,8 @@ for name, r in sorted(results.items()):
             },
             "checks_run": r["checks"], "caught_by": caught, "not_caught_by": missed,
         }
+        if name in STRENGTHENED:
+            meta["machinery_strengthened"] = STRENGTHENED[name]
         json.dump(meta, open(os.path.join(dst, "meta.json"), "w"), indent=1)
     rows.append((name, pid, r["files"], ok_demo, ok_tests, caught, missed, r["checks"]))
 print("| change | breaks | file(s) | demo ok | tests unchanged | caught by (quick) | not caught by |")
